@@ -282,9 +282,67 @@ func (w *skWalker) isTable(e ast.Expr) (string, bool) {
 }
 
 func (w *skWalker) stmts(list []ast.Stmt) {
-	for _, s := range list {
+	for i, s := range list {
+		// `if c { A; return … }; R; return …` and `if !c { R; return … }; A; return …` are the same function: the
+		// one with the SHORTER branch inside the `if` is written (ties: the one whose condition is not a negation)
+		if x, ok := s.(*ast.IfStmt); ok && x.Else == nil && x.Init == nil && i+1 < len(list) && endsInReturn(x.Body.List) && endsInReturn(list[i+1:]) {
+			nb, nr := countStmts(x.Body.List), countStmts(list[i+1:])
+			_, negated := unparen(x.Cond).(*ast.UnaryExpr)
+			if negated {
+				negated = unparen(x.Cond).(*ast.UnaryExpr).Op == token.NOT
+			}
+			if nr < nb || nr == nb && negated {
+				w.expr(x.Cond)
+				c := ""
+				if negated {
+					c = w.nsrc(unparen(unparen(x.Cond).(*ast.UnaryExpr).X))
+				} else {
+					c = "!(" + w.nsrc(x.Cond) + ")"
+				}
+				w.emit("ifBegin", c)
+				saved := append([]string(nil), w.held...)
+				w.stmts(list[i+1:])
+				w.held = saved
+				w.emit("ifEnd", "")
+				w.stmts(x.Body.List)
+				return
+			}
+		}
 		w.stmt(s)
 	}
+}
+
+func unparen(e ast.Expr) ast.Expr {
+	for {
+		p, ok := e.(*ast.ParenExpr)
+		if !ok {
+			return e
+		}
+		e = p.X
+	}
+}
+
+func endsInReturn(list []ast.Stmt) bool {
+	if len(list) == 0 {
+		return false
+	}
+	_, ok := list[len(list)-1].(*ast.ReturnStmt)
+	return ok
+}
+
+func countStmts(list []ast.Stmt) int {
+	n := 0
+	for _, s := range list {
+		ast.Inspect(s, func(x ast.Node) bool {
+			if _, ok := x.(ast.Stmt); ok {
+				if _, blk := x.(*ast.BlockStmt); !blk {
+					n++
+				}
+			}
+			return true
+		})
+	}
+	return n
 }
 
 func (w *skWalker) stmt(s ast.Stmt) {
